@@ -34,6 +34,8 @@ def build_engine(sc, emitter='verif', parallel=()):
         if sc.get('precision') is not None:
             cfg['prec'] = sc['precision']
             cfg['scale'] = 10.0 ** -sc['precision']
+        if sc.get('fscale') is not None:
+            cfg['fscale'] = sc['fscale']
         if pid in parallel:
             cfg['_parallel'] = True
         if cfg.get('sops') is not None:
@@ -81,7 +83,8 @@ def build_engine(sc, emitter='verif', parallel=()):
         else (sc.get('emit_step', 1) if sc.get('emit_step', 1) == 1
               else round(sc['emit_step'] * 10.0 ** -sc['precision'], sc['precision'])),
         display_info=False, progress_bar=False,
-        initial_global_time=sc.get('t0', 0) if sc.get('precision') is None
+        initial_global_time=(sc.get('t0', 0) * (sc.get('fscale') or 1))
+        if sc.get('precision') is None
         else round(sc.get('t0', 0) * 10.0 ** -sc['precision'], sc['precision']), **kw)
     return eng
 
@@ -110,6 +113,8 @@ def run_scenario(sc, watchdog=20.0):
     t0 = sc.get('t0', 0)
     if sc.get('precision') is not None:
         t0 = round(t0 * 10.0 ** -sc['precision'], sc['precision'])
+    if sc.get('fscale') is not None:
+        t0 = t0 * sc['fscale']
     rec = probes.reset(t0)
     try:
         with Watchdog(watchdog):
@@ -118,6 +123,8 @@ def run_scenario(sc, watchdog=20.0):
             for iv, force in sc['calls']:
                 if sc.get('precision') is not None:
                     iv = round(iv * 10.0 ** -sc['precision'], sc['precision'])
+                if sc.get('fscale') is not None:
+                    iv = iv * sc['fscale']
                 rec.add('call', iv, bool(force), eng.global_time)
                 if force:
                     eng.update(iv)
@@ -165,7 +172,7 @@ def to_records(sc, raw, scale=None):
     """
     prec = sc.get('precision')
     if scale is None:
-        scale = 1 if prec is None else 10.0 ** -prec
+        scale = (sc.get('fscale') or 1) if prec is None else 10.0 ** -prec
 
     def tick_len(t):
         q = t / scale
@@ -393,6 +400,22 @@ def systematic_scenarios(nprocs, ts_set, conds, calls_set, depth):
                     'cond': [a[1] for a in script]}
             yield {'procs': procs, 'order': pids, 'calls': [list(c) for c in calls],
                    'emit_step': 1, 'init': {}}
+
+
+def float_scenario(rng):
+    """One process whose timesteps, and calls whose intervals, are ordinary float
+    multiples of a decimal tick (3 * 0.1) without global_time_precision.  Times
+    are mapped to ticks with a tolerance; with a single process no two events
+    are meant to coincide, so the mapping is unambiguous."""
+    cfg = {'vars': ['p1', 's'], 'writes': {'s': [rng.randint(1, 3) for _ in range(3)]},
+           'ts': [rng.choice([1, 2, 3, 5, 6, 7, 10]) for _ in range(rng.randint(1, 5))],
+           'cond': [rng.random() < 0.8 for _ in range(rng.randint(1, 4))]}
+    calls = [[rng.randint(1, 12), rng.random() < 0.6] for _ in range(rng.randint(1, 3))]
+    sc = {'procs': {'p1': cfg}, 'order': ['p1'], 'calls': calls, 'emit_step': 1, 'init': {},
+          'fscale': rng.choice([0.1, 0.1, 0.3, 0.01, 0.7])}
+    if rng.random() < 0.3:
+        sc['t0'] = rng.randint(1, 4)
+    return sc
 
 
 def director_scenario(rng, max_ts=3):
